@@ -1,5 +1,6 @@
 import DmrVerif.Driver.Loop
+import DmrVerif.Driver.Trellis
 
-/-! model driver for property C10 (stub: no operations registered yet) -/
+/-! model driver for property C10 (rate ¾ trellis) -/
 
-def main : IO Unit := Dmr.Driver.runMain []
+def main : IO Unit := Dmr.Driver.runMain [Dmr.Driver.trellisOp]
